@@ -118,8 +118,18 @@ func init() {
 				return v
 			}
 		}
+		// the mutating sub-kinds (set/remove/a.set: the key search of an update is a lookup too) run against
+		// a throw-away storage over the committed ledger; whatever they changed is abandoned, never compared
+		mutating := st.Sub == "set" || st.Sub == "remove" || st.Sub == "a.set"
+		if mutating && c.Root().Volatile {
+			return nil
+		}
 		evict := func() {
-			w.Storage.DropCache()
+			if mutating {
+				w.Storage = w.newStorage(w.Ledger, w.Ctl)
+			} else {
+				w.Storage.DropCache()
+			}
 			w.Handles = map[int]any{}
 		}
 		evict()
@@ -131,10 +141,37 @@ func init() {
 		if v != nil {
 			return v
 		}
-		lookup := func() error {
+		var rawErr error // what the library returned, before refusals are filtered out
+		lookupInner := func() error {
 			switch {
 			case c.IsMap && st.Sub == "iter":
 				return h.(*atree.OrderedMap).Iterate(w.cmp, w.hip, func(k, v atree.Value) (bool, error) { return true, nil })
+			case c.IsMap && (st.Sub == "set" || st.Sub == "remove"):
+				km, ok := scalarOf(st.K)
+				if !ok {
+					return nil
+				}
+				var err error
+				if st.Sub == "set" {
+					_, err = h.(*atree.OrderedMap).Set(w.cmp, w.hip, w.valueOfKey(km), U64(7))
+				} else {
+					_, _, err = h.(*atree.OrderedMap).Remove(w.cmp, w.hip, w.valueOfKey(km))
+				}
+				// a fault-free refusal (absent key, collision limit) is a legitimate outcome of the dry run
+				rawErr = err
+				var knf *atree.KeyNotFoundError
+				var cle *atree.CollisionLimitError
+				if errors.As(err, &knf) || errors.As(err, &cle) {
+					return nil
+				}
+				return err
+			case !c.IsMap && st.Sub == "a.set":
+				n := uint64(len(c.Elems))
+				if n == 0 {
+					return nil
+				}
+				_, err := h.(*atree.Array).Set(st.Pos%n, U64(7))
+				return err
 			case c.IsMap && st.Sub == "has":
 				km, ok := scalarOf(st.K)
 				if !ok {
@@ -164,6 +201,14 @@ func init() {
 				return err
 			}
 		}
+		lookup := func() error {
+			rawErr = nil
+			err := lookupInner()
+			if rawErr == nil {
+				rawErr = err
+			}
+			return err
+		}
 		// fault-free dry run: how many calls of each kind does this lookup make?
 		w.Ctl.Reset()
 		w.Ledger.SetPlan(&FaultPlan{})
@@ -173,6 +218,9 @@ func init() {
 		}
 		counts := map[string]int{"cmp": w.Ctl.Count["cmp"], "hip": w.Ctl.Count["hip"], "read": w.Ledger.nRead}
 		w.Ledger.SetPlan(nil)
+		if mutating {
+			evict()
+		}
 		pre, err := w.snapTrace()
 		if err != nil {
 			return w.viol("harness", "%v", err)
@@ -204,7 +252,11 @@ func init() {
 				}
 				w.Stats.Inc("fault.callback." + kind)
 				if !wrapsInjected(err) {
-					return w.viol("lookupfault.category", "lookup on #%d with the %d-th %s call failing returned %T (%s) %v; want an external error wrapping the injected one", c.CID, k, kind, err, errCategory(err), err)
+					return w.viol("lookupfault.category", "%s on #%d with the %d-th %s call failing returned %T (%s) %v; want an external error wrapping the injected one", st.Sub, c.CID, k, kind, rawErr, errCategory(rawErr), rawErr)
+				}
+				if mutating {
+					w.Stats.Inc("fault.callback.in-update")
+					continue
 				}
 				if vv := w.compareTrace(pre, fmt.Sprintf("a lookup whose %d-th %s call failed", k, kind)); vv != nil {
 					vv.Class = "lookupfault.trace"
@@ -224,7 +276,7 @@ func init() {
 		c = c.Root()
 		st := Step{Op: "lookupfault", C: c.CID, Pos: g.genPos(c.Count())}
 		if c.IsMap {
-			st.Sub = []string{"get", "has", "iter", "get"}[g.R.Intn(4)]
+			st.Sub = []string{"get", "has", "iter", "get", "set", "remove", "set"}[g.R.Intn(7)]
 			var k VSpec
 			if n := len(c.Keys); n > 0 && g.R.Chance(0.8) {
 				k = specOfKey(c.Keys[g.R.Intn(n)])
@@ -233,7 +285,7 @@ func init() {
 			}
 			st.K = &k
 		} else {
-			st.Sub = []string{"get", "iter", "get"}[g.R.Intn(3)]
+			st.Sub = []string{"get", "iter", "get", "a.set"}[g.R.Intn(4)]
 		}
 		return st, true
 	}
